@@ -48,6 +48,33 @@ def q_cast(x):
     return y
 '''
 
+TWO_STAGE_TEMPLATE = '''import fpy2 as fp
+from fpy2 import *
+
+C1 = {c1}
+C2 = {c2}
+
+@fp.fpy(ctx=fp.REAL)
+def two_stage(a, b):
+    with C1:
+        t = {expr}
+    with C2:
+        y = fp.round(t)
+    return y
+'''
+
+# first-stage formats whose overflow is a NaN, an infinity, a saturation or a wrap: the operand of the lowered rounding is then
+# a special value (or a clamped one) although every argument is a finite integer
+STAGE1 = ['fp.MX_E4M3', 'fp.S1E4M3', 'fp.S1E5M2', 'fp.FP16', 'fp.FP8P3', 'fp.MX_E5M2', 'fp.MX_E3M2', 'fp.MX_E2M1', 'fp.MX_E8M0', 'fp.BF16',
+          'fp.SINT8', 'fp.UINT8', 'fp.FixedContext(True, 0, 8, fp.RM.RNE, fp.OV.SATURATE)', 'fp.IEEEContext(3, 7, fp.RM.RTZ)',
+          'fp.EFloatContext(4, 8, False, fp.EFloatNanKind.MAX_VAL, 0, rm=fp.RM.RTP)']
+STAGE2 = ['fp.MX_E3M2', 'fp.MX_E2M1', 'fp.MX_E2M3', 'fp.MX_E4M3', 'fp.S1E4M3', 'fp.FP8P3', 'fp.FP16', 'fp.MX_E5M2', 'fp.SINT8',
+          'fp.FixedContext(True, -2, 8, fp.RM.RNE, fp.OV.SATURATE)', 'fp.IEEEContext(4, 8, fp.RM.RTN)']
+STAGE_EXPRS = ['a * b', 'a + b', 'a - b', 'a * a', '(a * b) + a', 'fp.round(a) * 64', '-(a * b)', 'abs(a) * b']
+INT_TYPES = ['fp.SINT16', 'fp.SINT8', 'fp.UINT8', 'fp.SINT32', None]
+INT_OPERANDS = [0, 1, -1, 2, 3, -3, 4, 5, -7, 9, 15, 16, -16, 20, 21, 22, 27, 28, 29, 31, 60, 64, 100, -100, 127, -128, 200, 255, 300, 448, 449, 480, 1000, -1000,
+                4096, 32767, -32768, 65504, 65520, 100000]
+
 ARITH_TEMPLATE = '''import fpy2 as fp
 from fpy2 import *
 
@@ -209,11 +236,95 @@ def shard(i: int, n: int, tier: str, seed: int) -> Result:
                 res.sample({'context': text, 'operands': len(ops), 'variants_per_function': len(variants(mod.q_assign, rng))})
             genprog.unload(mod)
 
+        # -- two-stage programs: the lowered rounding reads what an earlier rounding produced ---------
+        _two_stage(res, rng, work, i, n, quick, allc)
         # -- elim_round / insert_round on exact-arithmetic programs ------------------------
         _arith(res, rng, work, i, n, quick)
     res.counters['variants'] = variants_n
     res.counters['variants_changed'] = changed
     return res
+
+
+def _two_stage(res, rng, work, i, n, quick, allc):
+    import fpy2 as fp
+    from fpy2 import strategies as st
+    from fpy2.types import RealType
+    from ..gen import prog as genprog, run as genrun
+    count = (10 if quick else 60)
+    r2 = random.Random(rng.random())
+    for k in range(count):
+        c1 = r2.choice(STAGE1) if r2.random() < 0.75 else r2.choice(allc)
+        c2 = r2.choice(STAGE2) if r2.random() < 0.75 else r2.choice(allc)
+        expr = r2.choice(STAGE_EXPRS)
+        ty = r2.choice(INT_TYPES)
+        src = TWO_STAGE_TEMPLATE.format(c1=c1, c2=c2, expr=expr)
+        try:
+            mod = genprog.load_module(src, work, 'c10t')
+        except Exception as e:
+            res.count(f'module_rejected:{type(e).__name__}')
+            continue
+        f = mod.two_stage
+        try:
+            if ty is not None:
+                T = eval(ty, {'fp': fp})
+                f = st.monomorphize(f, args=[RealType(T), RealType(T)])
+                vals = [v for v in INT_OPERANDS if T.representable_under(fp.Float.from_int(v))]
+            else:
+                vals = INT_OPERANDS
+        except Exception as e:
+            res.count(f'two_stage_monomorphize_refused:{type(e).__name__}')
+            genprog.unload(mod)
+            continue
+        res.count('two_stage_programs')
+        pairs = [(a, b) for a in vals for b in vals]
+        r2.shuffle(pairs)
+        pairs = pairs[:60 if quick else 200]
+        refs = [genrun.call(f, [a, b], timeout=5.0) for (a, b) in pairs]
+        orig_text = f.format()
+        for label, thunk in variants(f, r2):
+            out = genrun.guarded(thunk, timeout=20.0)
+            if out[0] == 'timeout':
+                res.count('transform_timeout')
+                continue
+            if out[0] == 'exc':
+                en = type(out[1]).__name__
+                if en in ('TransformDeclined', 'TransformReferenceError'):
+                    res.count(f'refused:{en}')
+                    continue
+                res.evaluations += 1
+                res.violate({'property': PROP, 'context': f'{c1} -> {c2}', 'function': 'two_stage', 'rewrite': label, 'source': src, 'arg_type': ty,
+                             'problem': f'rewrite raised {en}: {str(out[1])[:300]}',
+                             'mechanism': {'kind': 'transform_crash', 'exception': en, 'rewrite': label.split(':')[0], 'family': 'two_stage'}})
+                continue
+            g = out[1]
+            try:
+                new_text = g.format()
+            except Exception:
+                new_text = '<unformattable>'
+            diff = new_text != orig_text
+            res.count('two_stage_variants')
+            res.count('two_stage_variants_changed', int(diff))
+            for (a, b), ref in zip(pairs, refs):
+                if ref[0] != 'ok':
+                    res.count('orig_raises')
+                    continue
+                r = genrun.call(g, [a, b], timeout=5.0)
+                if r[0] == 'timeout':
+                    res.count('lowered_timeout')
+                    continue
+                res.evaluations += 1
+                if r[0] == 'ok' and r[1] == ref[1]:
+                    res.nontrivial += diff
+                    if ref[1][0] == 'n' and ref[1][1] in ('nan', '+inf', '-inf'):
+                        res.count('two_stage_special_results_agreed')
+                    continue
+                got = genrun.show(r[1]) if r[0] == 'ok' else f'raised {r[1]}: {r[2]}'
+                res.violate({'property': PROP, 'context': f'{c1} -> {c2}', 'function': 'two_stage', 'rewrite': label, 'operand': repr((a, b)), 'arg_type': ty,
+                             'source': src, 'original': genrun.show(ref[1]), 'lowered': got, 'lowered_program': new_text[:3000],
+                             'problem': 'lowered two-stage program disagrees with the original',
+                             'mechanism': {'kind': 'value' if r[0] == 'ok' else 'raises', 'rewrite': label.split(':')[0], 'family': 'two_stage'}})
+                break
+        genprog.unload(mod)
 
 
 def _zero_sign_only(a, b) -> bool:
